@@ -72,7 +72,15 @@ impl ZkirRelation {
 
         // If the public input types are not known, we can initialize them with an
         // in-circuit parser pass.
-        dummy_synthesize_run(&MidnightCircuit::from_relation(self))?;
+        // (A fixed lookup-table size is used: `MidnightCircuit::from_relation`
+        // optimizes it through the cost model, which panics on a program whose
+        // synthesis fails instead of reporting the error.)
+        dummy_synthesize_run(&MidnightCircuit::new(
+            self,
+            Value::unknown(),
+            Value::unknown(),
+            Some(8),
+        ))?;
         let pi_types = self.public_input_types.borrow().clone();
         assert_eq!(pis.len(), pi_types.len());
         Ok(pis.into_iter().zip(pi_types).collect())
